@@ -196,7 +196,7 @@ ValidSpec(n, items) ==
 \* ------------------------------------------------------------------ decomposition runs (binding 2)
 RunShapes(n) == IF n = 3 THEN {<<3, 4, 2>>, <<4, 3, 3>>, <<3, 1, 4>>}              \* incl. a size-1 mode
                 ELSE IF n = 4 THEN {<<3, 2, 3, 2>>, <<2, 3, 2, 4>>, <<2, 3, 1, 3>>} ELSE {}
-RunRanks  == {1, 2, 3}
+RunRanks  == {1, 2, 3, 5}     \* below / equal to / above single mode sizes; 5 is above EVERY mode size
 RunInits  == {"svd", "random", "user", "exact", "feasible"}
 \* "feasible": a caller's CP tensor with NON-UNIT weights (positive or of mixed sign) whose factors
 \*          satisfy the constraint requested on their mode
@@ -208,17 +208,22 @@ BuiltinInit(r) == r.init \in {"svd", "random"}
 RunTols   == {"default", "loose"}
 \* members of a sequence through the class wrapper: each estimator constructed right before its fit,
 \* or ALL estimators constructed first and fitted afterwards (nothing may be shared between instances)
-RunBuilt  == {"at_call", "before_sequence"}          \* tol_outer left at 1e-8 / set to 1e-2
+RunBuilt  == {"at_call", "before_sequence", "reused_estimator"}
+\* "reused_estimator": ONE ConstrainedCP object for the whole sequence; before each fit the caller assigns that
+\* member's options to its attributes (also after a member whose request was rejected with an error)
+\* HOW the call is written -- the meaning must not depend on it:
+CallForms == {"keyword", "positional"}      \* every argument by its published name / in the published order
+RunCvg    == {"abs_rec_error", "rec_error"}          \* tol_outer left at 1e-8 / set to 1e-2
 RunOuter  == {0, 1, 2, 5}   \* 0: the initial factors are returned (built-in inits go through the prox first)
 RunInner  == {1, 10}         \* never 0: admm(n_iter_max=0) raises UnboundLocalError before returning
-RunData   == {"signed", "sparse", "allneg"}
+RunData   == {"signed", "sparse", "allneg", "denorm"}     \* denorm: signed, with -0.0 and 5e-324 entries mixed in
 (* fixed_modes ("A list of modes for which the initial value is not modified.  The last mode cannot *)
 (* be fixed"): every subset of the modes 0..n-2, so at least the last mode stays free.  A fixed     *)
 (* mode's factor is the initial value by that documentation (C14's obligation), so a constraint     *)
 (* requested on a fixed mode imposes NOTHING on the returned factor; every free requested mode      *)
 (* keeps the obligation Assign gives it, whatever is fixed around it.                               *)
 RunFixed(n) == {SortedSeq(S) : S \in SUBSET (0..(n - 2))}
-RunVia    == {"function", "class"}      \* constrained_parafac(...) / ConstrainedCP(...).fit_transform
+RunVia    == {"function", "class", "class_fit"}   \* constrained_parafac(...) / ConstrainedCP(...).fit_transform / .fit(...).decomposition_
 ValidFixed(n, f) == /\ \A j \in 1..Len(f) : f[j] \in 0..(n - 2)
                     /\ \A j \in 1..(Len(f) - 1) : f[j] < f[j + 1]
 (* VALUE regimes: the data are multiplied by 2^scale (exact) and stored as dtype.  The hard        *)
@@ -239,7 +244,10 @@ UnderflowRegime(r) == r.dtype = "float32" /\ r.scale < 0
 SeqShifts == {0, 2, 4}
 ValidRun(n, r) == /\ r.shape \in RunShapes(n) /\ r.rank \in RunRanks /\ r.init \in RunInits
                   /\ ValidFixed(n, r.fixed) /\ r.via \in RunVia /\ ValidValues(r) /\ r.tol \in RunTols
-                  /\ r.built \in RunBuilt /\ (r.built = "before_sequence" => r.via = "class")
+                  /\ r.built \in RunBuilt /\ (r.built # "at_call" => r.via \in {"class", "class_fit"})
+                  /\ r.form \in CallForms /\ r.cvg \in RunCvg
+                  /\ r.errors \in BOOLEAN        \* return_errors (the function then returns a pair)
+                  /\ r.alias \in BOOLEAN         \* a caller's start whose equal-sized modes share ONE array object
                   /\ r.outer \in RunOuter /\ r.inner \in RunInner /\ r.data \in RunData
 (* Which modes carry the obligation.  initialize_constrained_parafac documents that the built-in    *)
 (* initialisations are passed through the proximal operator "so that they satisfy the imposed       *)
@@ -261,7 +269,7 @@ KeptModes(n, items, r) ==
     {m \in Requested(n, items) : /\ Assign(n, items)[m].kind \in HardKinds /\ ~BuiltinInit(r)
                                  /\ m # n - 1 /\ (m \in SeqRange(r.fixed) \/ r.outer = 0)}
 \* operator events: proximal_operator(v, <spec>, n_const = n, order = mode) on a rows x cols matrix
-ValidProx(n, r) == /\ r.rows \in 2..4 /\ r.cols \in 1..3 /\ r.mode \in Modes(n) /\ r.data \in RunData /\ ValidValues(r)
+ValidProx(n, r) == /\ r.rows \in 2..4 /\ r.cols \in 1..3 /\ r.mode \in Modes(n) /\ r.data \in RunData /\ ValidValues(r) /\ r.form \in CallForms
 \* exceptions that are numerical break-downs of the linear algebra, not a statement about constraints
 NumericFailure == {"LinAlgError"}
 
@@ -416,7 +424,7 @@ Init == \/ cfg \in {[op |-> "root", n |-> n, first |-> <<it>>] : <<n, it>> \in U
         \/ cfg \in {[op |-> "offroot", n |-> n, first |-> it] : <<n, it>> \in UNION {{<<n, it>> : it \in UNION {ItemsOf(n, k, "plain") : k \in KindsFor(n)}} : n \in Orders}}
         \/ cfg \in {[op |-> "colroot", x |-> x] : x \in Columns}
         \/ cfg \in {[op |-> "col4", x |-> x] : x \in [1..4 -> ColVals]}
-        \/ cfg \in {[op |-> "rundomain", n |-> n, shapes |-> RunShapes(n), ranks |-> RunRanks, inits |-> RunInits, fixed |-> RunFixed(n), via |-> RunVia, scales |-> RunScales, dtypes |-> RunDtypes, shifts |-> SeqShifts, tols |-> RunTols, falsy |-> FalsySpellings, built |-> RunBuilt,
+        \/ cfg \in {[op |-> "rundomain", n |-> n, shapes |-> RunShapes(n), ranks |-> RunRanks, inits |-> RunInits, fixed |-> RunFixed(n), via |-> RunVia, scales |-> RunScales, dtypes |-> RunDtypes, shifts |-> SeqShifts, tols |-> RunTols, falsy |-> FalsySpellings, built |-> RunBuilt, forms |-> CallForms, cvg |-> RunCvg,
                      outer |-> RunOuter, inner |-> RunInner, data |-> RunData] : n \in Orders}
 Next == \/ /\ cfg.op = "root"
            /\ \/ cfg' = SpecState(cfg.n, cfg.first)
